@@ -170,6 +170,15 @@ func Switch(thorough bool, expired func() bool, level func(name string, complete
 		yield(xid(wire.New("hello").Add("Elements", e.Clone(), wire.New("hello_elem_versionbitmap").Set("Type", 1).SetB("Bitmaps", Pat(4, 9)))))
 	}
 	yield(xid(wire.New("hello")))
+	// an element that lists no version at all (4 bytes of header, 4 of padding): alone, first, in the middle, last
+	{
+		empty := func() *wire.N { return wire.New("hello_elem_versionbitmap").Set("Type", 1).SetB("Bitmaps", []byte{}) }
+		full := func(r int) *wire.N { return wire.New("hello_elem_versionbitmap").Set("Type", 1).SetB("Bitmaps", Pat(4, r)) }
+		yield(xid(wire.New("hello").Add("Elements", empty())))
+		yield(xid(wire.New("hello").Add("Elements", empty(), full(1))))
+		yield(xid(wire.New("hello").Add("Elements", full(1), empty(), full(2))))
+		yield(xid(wire.New("hello").Add("Elements", full(3), empty())))
+	}
 	// version negotiation: a switch that also speaks a later (or only an earlier) version puts its own
 	// highest version into the header of its hello and lists 1.3 in the bitmap; the error answering
 	// a failed negotiation carries the version of its sender
@@ -238,9 +247,6 @@ func Switch(thorough bool, expired func() bool, level func(name string, complete
 		kind string
 	}{{0, "desc_stats"}, {2, "aggregate_stats"}, {3, "table_stats"}, {4, "port_stats"}, {5, "queue_stats"}} {
 		for cnt := 0; cnt <= 3; cnt++ {
-			if (t.typ == 0 || t.typ == 2) && cnt > 1 {
-				continue
-			}
 			var recs []*wire.N
 			for i := 0; i < cnt; i++ {
 				recs = append(recs, StatsRec(t.kind, i))
